@@ -783,7 +783,13 @@ fn history_cases(r: &mut Rng) -> Vec<Case> {
             // the first evaluated expression is also judged against the language semantics at the values the handles resolve to
             let top = h.minted.len() + 4;
             let vals: Vec<f64> = (0..top).map(|i| sol.numeric_value(Var { index: i }).unwrap_or(0.0)).collect();
-            if vals.iter().all(|v| v.is_finite()) {
+            // (literals far from 1 make the float evaluation overflow / cancel where the exact semantics does not: no verdict there)
+            fn tame(e: &Exp) -> bool { match e {
+                Exp::Number(v) => *v == 0.0 || (v.abs() >= 1e-3 && v.abs() <= 1e3), Exp::Variable(_) => true,
+                Exp::Abs(x) | Exp::Not(x) | Exp::UnOp(_, x) => tame(x),
+                Exp::Min(es) | Exp::Max(es) | Exp::And(es) | Exp::Or(es) => es.iter().all(tame),
+                Exp::Xor(a, b) | Exp::Implies(a, b) | Exp::Iff(a, b) | Exp::BinOp(_, a, b) => tame(a) && tame(b) } }
+            if vals.iter().all(|v| v.is_finite()) && tame(&q_exprs[0].0) && sol.eval(&q_exprs[0].1).is_finite() {
                 c.oracle = format!("eval-check {} (vals {}) {}", sx::exp(&q_exprs[0].0), sx::nums(&vals), sx::num(sol.eval(&q_exprs[0].1)));
             }
         }
